@@ -633,16 +633,16 @@ Qed.
 
 (* The peer is the last element of X-Forwarded-For at the upstream: through the (modelled)
    ReverseProxy for plain requests, through addHeaders for Upgrade: websocket; for every
-   client header map; the only excluded inputs are those of finding region 2. *)
+   client header map a client can produce ("Upgrade: Websocket" included since the repair
+   afbb806: addHeaders recognises the two spellings ServeHTTP sends to the websocket handler). *)
 Theorem xff_last_is_peer cfg t uuid r peer up sts :
   serve cfg t uuid r = Ok (up, sts) -> r_peer r = Some peer ->
   wf_hdr (r_hdr r) = true ->
   off K_XFF (c_tlsheader cfg) ->
   off K_UPGRADE (c_clientip cfg) -> off K_UPGRADE (c_tlsheader cfg) -> off K_UPGRADE (c_reqid cfg) ->
-  F_capital_websocket (r_hdr r) = false ->
   cl_xff up peer = true.
 Proof.
-  intros S P W T1 C2 T2 R2 F.
+  intros S P W T1 C2 T2 R2.
   apply serve_inv in S as (peer' & h & P' & A & -> & _).
   assert (peer' = peer) by congruence. subst peer'.
   apply add_headers_ok in A as (peer' & P'' & ->). cbn [req_after_rewrite r_peer] in P''.
@@ -660,8 +660,7 @@ Proof.
   { apply hget_eq. rewrite upto9_other by auto with keys. apply reqid_off. exact R2. }
   assert (U2 : hget (st2 peer (st1 cfg peer h0)) K_UPGRADE = hget (r_hdr r) K_UPGRADE).
   { apply hget_eq. rewrite upto2_other by auto with keys. apply reqid_off. exact R2. }
-  unfold takes_ws_path in WS. rewrite U9 in WS. unfold F_capital_websocket in F. rewrite F in WS.
-  rewrite orb_false_r in WS.
+  unfold takes_ws_path in WS. rewrite U9 in WS.
   assert (I : is_ws (st2 peer (st1 cfg peer h0)) = true) by (unfold is_ws; rewrite U2; exact WS).
   unfold upto9, upto7, upto3. rewrite st9_off by exact T1.
   rewrite st4to8_other by auto with keys.
@@ -701,7 +700,8 @@ Proof.
 Qed.
 
 (* ------------------------------------------------------------------ *)
-(** * Refutations: concrete witnesses inside the four finding regions *)
+(** * Refutations: concrete witnesses inside the finding regions (three open ones on the
+    current code; F-C08-2 on the definitions as they were before the repair afbb806) *)
 Definition ex_cfg : config :=
   {| c_clientip := bs "X-Client-Ip"; c_tlsheader := bs "X-Tls"; c_tlsvalue := bs "true"; c_localip := [];
      c_reqid := []; c_sts_maxage := 31536000%Z; c_sts_sub := false; c_sts_preload := false |}.
@@ -730,11 +730,12 @@ Proof.
   eexists. eexists. witness.
 Qed.
 
-(* F-C08-2: Upgrade: Websocket with a forged X-Forwarded-For *)
+(* F-C08-2 (REPAIRED in /repo by afbb806): Upgrade: Websocket with a forged X-Forwarded-For,
+   on the code as it was before the repair ([serve_unrepaired]) *)
 Theorem xff_capital_websocket_refuted :
   exists cfg t uuid r up sts,
     cfg_sane cfg = true /\ wf_hdr (r_hdr r) = true /\
-    serve cfg t uuid r = Ok (up, sts) /\
+    serve_unrepaired cfg t uuid r = Ok (up, sts) /\
     F_capital_websocket (r_hdr r) = true /\
     hfind up K_XFF = Some [bs "6.6.6.6"] /\ cl_xff up ex_peer = false.
 Proof.
@@ -742,6 +743,14 @@ Proof.
     (ex_req None [(K_UPGRADE, [bs "Websocket"]); (K_CONN, [bs "Upgrade"]); (K_XFF, [bs "6.6.6.6"])]).
   eexists. eexists. witness.
 Qed.
+
+(* ... and the same request on the current code: the peer is appended *)
+Example xff_capital_websocket_repaired :
+  exists up sts,
+    serve ex_cfg (ex_tgt []) []
+      (ex_req None [(K_UPGRADE, [bs "Websocket"]); (K_CONN, [bs "Upgrade"]); (K_XFF, [bs "6.6.6.6"])]) = Ok (up, sts) /\
+    hfind up K_XFF = Some [bs "6.6.6.6, 1.2.3.4"] /\ cl_xff up ex_peer = true.
+Proof. eexists. eexists. witness. Qed.
 
 (* F-C08-3: ClientIPHeader = "X-Real-Ip" and a forged X-Real-Ip *)
 Theorem clientip_xrealip_refuted :
@@ -901,16 +910,15 @@ Section OnDomain.
   Let SF := cfg_sane_facts cfg SANE.
 
   Lemma od_regions :
-    rewritten_host t (r_host r) = r_host r /\ F_capital_websocket hdr = false /\
+    rewritten_host t (r_host r) = r_host r /\
     F_cih_xrealip_forged cfg hdr = false /\
     forall k, In k [canon_key (c_clientip cfg); canon_key (c_tlsheader cfg); K_XRI; K_XFP; K_XFPORT; K_XFH; K_FWD] ->
               F_conn_lists hdr k = false.
   Proof.
     unfold no_region in NR. fold hdr in NR.
     apply andb_true_iff in NR as [N1 N4]. apply andb_true_iff in N1 as [N1 N3].
-    apply andb_true_iff in N1 as [N1 N2].
-    apply negb_true_iff in N1, N2, N3, N4.
-    split; [|split; [exact N2|split; [exact N3|]]].
+    apply negb_true_iff in N1, N3, N4.
+    split; [|split; [exact N3|]].
     - unfold F_host_rewrite in N1. apply negb_false_iff in N1. now apply beq_eq.
     - now apply existsb_false_forall.
   Qed.
@@ -951,7 +959,7 @@ Section OnDomain.
     destruct (takes_ws_path h) eqn:WS; [now rewrite wire_id|].
     apply rp_out_other; auto.
     assert (TK : conn_tokens h = conn_tokens hdr) by (unfold conn_tokens; now rewrite HC).
-    rewrite TK. unfold takes_ws_path in WS. rewrite HU in WS. apply orb_false_iff in WS as [WS _].
+    rewrite TK. unfold takes_ws_path in WS. rewrite HU in WS.
     unfold F_conn_lists, is_ws in F. rewrite WS in F. cbn [negb andb] in F.
     intros x I. apply beq_neq. exact (existsb_false_forall _ _ F x I).
   Qed.
@@ -963,19 +971,18 @@ Section OnDomain.
 
   Lemma od_xff : cl_xff up peer = true.
   Proof.
-    destruct SF as [C T R _ _ _]. destruct od_regions as (_ & F2 & _ & _).
+    destruct SF as [C T R _ _ _].
     apply (xff_last_is_peer cfg t uuid r peer up sts SV PE WF).
     - apply T. apply in_or_app. left. cbn; auto.
     - apply C. cbn; auto 10.
     - apply T. apply in_or_app. right. cbn; auto.
     - apply R. apply in_or_app. right. cbn; auto.
-    - exact F2.
   Qed.
 
   Lemma od_xri : cl_xri hdr up peer = true.
   Proof.
     destruct od_ctx as (h & A & U & Wh & HC & HU).
-    destruct SF as [C T R _ _ _]. destruct od_regions as (_ & _ & _ & FC).
+    destruct SF as [C T R _ _ _]. destruct od_regions as (_ & _ & FC).
     destruct od_hop_literals as (H1 & _).
     assert (E : hfind up K_XRI = hfind h K_XRI).
     { apply (od_transport h K_XRI U Wh HC HU); auto with keys. apply FC. cbn; auto. }
@@ -992,7 +999,7 @@ Section OnDomain.
   Proof.
     destruct (sempty (c_tlsheader cfg)) eqn:ETH; [reflexivity|]. cbn [orb].
     destruct od_ctx as (h & A & U & Wh & HC & HU).
-    destruct SF as [C T R CT _ TH]. destruct od_regions as (_ & _ & _ & FC).
+    destruct SF as [C T R CT _ TH]. destruct od_regions as (_ & _ & FC).
     assert (NE : c_tlsheader cfg <> []) by (intros Z; rewrite Z in ETH; discriminate).
     assert (N1 : canon_key (c_tlsheader cfg) <> K_XFF).
     { destruct (T K_XFF) as [Z|Z]; [apply in_or_app; left; cbn; auto|congruence|exact Z]. }
@@ -1015,7 +1022,7 @@ Section OnDomain.
   Proof.
     destruct (fresh hdr) eqn:F; [|reflexivity]. cbn [negb orb].
     destruct od_ctx as (h & A & U & Wh & HC & HU).
-    destruct SF as [C T R _ _ _]. destruct od_regions as (_ & _ & _ & FC).
+    destruct SF as [C T R _ _ _]. destruct od_regions as (_ & _ & FC).
     destruct od_hop_literals as (_ & H2 & _).
     assert (E : hfind up K_XFP = hfind h K_XFP).
     { apply (od_transport h K_XFP U Wh HC HU); auto with keys. apply FC. cbn; auto. }
@@ -1031,7 +1038,7 @@ Section OnDomain.
   Proof.
     destruct (hget hdr K_XFPORT) eqn:F; [|reflexivity]. cbn [sempty negb orb].
     destruct od_ctx as (h & A & U & Wh & HC & HU).
-    destruct SF as [C T R _ _ _]. destruct od_regions as (RW & _ & _ & FC).
+    destruct SF as [C T R _ _ _]. destruct od_regions as (RW & _ & FC).
     destruct od_hop_literals as (_ & _ & H3 & _).
     assert (E : hfind up K_XFPORT = hfind h K_XFPORT).
     { apply (od_transport h K_XFPORT U Wh HC HU); auto with keys. apply FC. cbn; auto 10. }
@@ -1049,7 +1056,7 @@ Section OnDomain.
     destruct (hget hdr K_XFH) eqn:F; [|reflexivity]. cbn [sempty negb orb].
     destruct (sempty (r_host r)) eqn:EH; [reflexivity|]. cbn [orb].
     destruct od_ctx as (h & A & U & Wh & HC & HU).
-    destruct SF as [C T R _ _ _]. destruct od_regions as (RW & _ & _ & FC).
+    destruct SF as [C T R _ _ _]. destruct od_regions as (RW & _ & FC).
     destruct od_hop_literals as (_ & _ & _ & H4 & _).
     assert (E : hfind up K_XFH = hfind h K_XFH).
     { apply (od_transport h K_XFH U Wh HC HU); auto with keys. apply FC. cbn; auto 10. }
@@ -1072,7 +1079,7 @@ Section OnDomain.
     destruct (beq (canon_key (c_clientip cfg)) K_XFF) eqn:B; [rewrite od_xff; apply orb_true_r|].
     apply beq_neq in B.
     destruct od_ctx as (h & A & U & Wh & HC & HU).
-    destruct SF as [C T R CT CH _]. destruct od_regions as (_ & _ & F3 & FC).
+    destruct SF as [C T R CT CH _]. destruct od_regions as (_ & F3 & FC).
     assert (E : hfind up (canon_key (c_clientip cfg)) = hfind h (canon_key (c_clientip cfg))).
     { apply (od_transport h _ U Wh HC HU); auto.
       - destruct CH; [congruence|auto].
@@ -1100,7 +1107,7 @@ Section OnDomain.
   Lemma od_fwd : cl_fwd hdr peer (is_tls r) up = true.
   Proof.
     destruct od_ctx as (h & A & U & Wh & HC & HU).
-    destruct SF as [C T R _ _ _]. destruct od_regions as (_ & _ & _ & FC).
+    destruct SF as [C T R _ _ _]. destruct od_regions as (_ & _ & FC).
     destruct od_hop_literals as (_ & _ & _ & _ & H5).
     assert (E : hfind up K_FWD = hfind h K_FWD).
     { apply (od_transport h K_FWD U Wh HC HU); auto with keys. apply FC. cbn; auto 10. }
